@@ -74,7 +74,7 @@ class Exc:
 _UNSUPPORTED_PAT = re.compile(
     r"not (currently |yet )?supported|not (yet )?implemented|does not (support|accept)|only works|only defined|"
     r"unsupported|is not defined for|only supports|can only|not compatible with this|no longer supported|"
-    r"at the moment|currently, .* only works|expects two LinearOperators of the same size",
+    r"at the moment|currently, .* only works|expects two LinearOperators of the same size|are not positive definite",
     re.I,
 )
 
